@@ -317,6 +317,9 @@ def zero_eigenvalue_family(rng, nrandom):
                    ([[2.0, 0.0, 0.0], [0.0, 1.0, 0.0], [0.0, 0.0, 0.0]], [F(2), F(1), F(0)]),
                    ([[4.0, 2.0], [2.0, 1.0]], [F(5), F(0)])):
         out.append((M, lam, "zeroeig-exact"))
+    for n in range(1, 5):                                   # the zero matrix: 0/0 in the convergence test before 0850cf3
+        out.append(([[0.0] * n for _ in range(n)], [F(0)] * n, "zeroeig-zero-matrix"))
+    out.append(([[0.0, 0.0], [0.0, -0.0]], [F(0), F(0)], "zeroeig-zero-matrix"))
     for k in range(nrandom):
         n = rng.choice([2, 3, 3, 4, 5, 6, 7])
         lam = sorted(spectrum(rng, n - 1), key=abs, reverse=True) + [F(0)]
@@ -742,7 +745,7 @@ def compare_spectrum(rq, n, M, impl, model, meta, ctx):
         ctx["excused"] += 1
         bump(ctx, "eig.model_noconv_impl_ok")
     elif len(mvals) == k and all(abs(Fraction(x) - m) <= K_EIG * EPS * lmax for x, m in zip(vals, mvals)):
-        worst = max(float(abs(Fraction(x) - m) / (EPS * lmax)) for x, m in zip(vals, mvals))
+        worst = max(float(abs(Fraction(x) - m) / (EPS * lmax)) for x, m in zip(vals, mvals)) if lmax else 0.0
         if worst > ctx["stats"].get("maxerr_eps_lmax.eig", 0):
             ctx["stats"]["maxerr_eps_lmax.eig"] = round(worst, 3)
     elif len(mvals) == k and all(abs(a - b) <= K_EIG * EPS * lmax for a, b in zip(sorted(Fraction(x) for x in vals), sorted(mvals))):
